@@ -184,6 +184,20 @@ class E3Session(SessionBase):
         self.snap_eq = strip_none(canon(self.equipment))
         self.snap_sim = gn.sim_params_snapshot()
 
+    def _fresh_designed(self):
+        """a fresh copy of the session's starting state: documents loaded and auto-designed under the simulation
+        parameters that were in force when the session's own network was designed (auto-design legitimately depends on
+        them), then the parameters the user has set since are put back"""
+        gn.reset_process_globals()
+        if self.world.get('sim'):
+            gn.set_sim_params(self.world['sim'])
+        try:
+            return gn.fresh_designed(self.world)
+        finally:
+            gn.reset_process_globals()
+            if self.sim_doc is not None:
+                gn.set_sim_params(self.sim_doc)
+
     # ---------------------------------------------------------------------------------------------------------
     # running the real pipeline and flattening what it returns
     def _run_planning(self, network, equipment, data, fault=None):
@@ -249,7 +263,7 @@ class E3Session(SessionBase):
         key = jdigest([doc, self.sim_doc])
         if key in self.ref_cache:
             return self.ref_cache[key]
-        eq, net, _ = gn.fresh_designed(self.world)
+        eq, net, _ = self._fresh_designed()
         try:
             out = self._run_planning(net, eq, doc)
             ref = {'ok': True, 'items': out['items'], 'eq': eq, 'net': net}
@@ -416,7 +430,7 @@ class E3Session(SessionBase):
                 continue
             rdoc = reqdocs[it['ids'][0]]['path-constraints']['te-bandwidth']
             if eq_f is None:
-                eq_f, net_f, _ = gn.fresh_designed(self.world)
+                eq_f, net_f, _ = self._fresh_designed()
             tdoc = docs[it['tsp']]
             lib_modes = {m['format']: m for m in eq_f['Transceiver'][it['tsp']].mode}
             all_modes = []
@@ -579,7 +593,7 @@ class E3Session(SessionBase):
                                             f'{expected[o][x]} and {it["rid"]}')
                         expected[o][x] = it['rid']
         if fresh is None:
-            eq_f, net_f, _ = gn.fresh_designed(self.world)
+            eq_f, net_f, _ = self._fresh_designed()
             from gnpy.topology.spectrum_assignment import build_oms_list
             fresh = build_oms_list(net_f, eq_f)
         for oms, f_oms in zip(oms_list, fresh):
